@@ -119,7 +119,7 @@ def generate(ctx):
     pcs = ["s", "b", "sb", "bs", "sbs", "bsb"] + (["ss", "bb", "ssb", "bbs", "sss", "bbb"] if thorough else [])
     for i, pc in enumerate(pcs):
         jobs.append(("walk-" + pc, big, pc, (3, 2, 2, 1000, 3, 60), "View", "NextSim", "EmitSim", "Init",
-                     {"num": 250 if thorough else 35, "depth": 80}))
+                     {"num": 150 if thorough else 35, "depth": 80}))
 
     def gen(j):
         src, dom, procs, bounds, view, nxt, invs, init, sim = j
@@ -288,12 +288,13 @@ def trace_canary(ctx, lines, procs, known):
 def record_and_validate(ctx, exe, known):
     thorough = ctx.tier == "thorough"
     total = {"executions": 0, "events": 0}
-    plan = [("sbs", 80), ("b", 40)] if not thorough else [("sbs", 800), ("bsb", 500), ("b", 400), ("s", 400), ("sb", 400)]
+    plan = [("sbs", 80), ("b", 40)] if not thorough else [("sbs", 600), ("bsb", 400), ("b", 300), ("s", 300), ("sb", 300)]
     for i, (procs, n) in enumerate(plan):
         h = hrun.run_harness(exe, ["record", n, ctx.seed * 13 + i, procs, 20, 60, NKEYS, NVALS], timeout=1200)
         if h.crashed or h.timed_out:
             ctx.violation("real code crashed / hung in a random history (record mode, Procs=%s, seed %d): %s" % (
-                procs, ctx.seed, h.err[-800:]), {"mode": "record", "procs": procs, "seed": ctx.seed, "stderr": h.err[-3000:]})
+                procs, ctx.seed, h.err[-800:]), {"mode": "record", "procs": procs, "seed": ctx.seed, "stderr": h.err[-3000:],
+                                                 "args": ["record", n, ctx.seed * 13 + i, procs, 20, 60, NKEYS, NVALS]})
             continue
         if h.rc != 0:
             raise Broken("c04 record failed rc=%s: %s" % (h.rc, h.err[-2000:]))
@@ -327,7 +328,8 @@ def concurrent_and_validate(ctx, known):
         if h.rc in (3, 4) or h.rc < 0 or h.timed_out:
             ctx.violation("several threads on one span: real execution %s (Procs=%s, seed %d): %s" % (
                 "got stuck" if h.rc == 3 else "crashed (rc=%s)" % h.rc, procs, ctx.seed, (h.err or "")[-600:]),
-                {"mode": "conc", "procs": procs, "seed": ctx.seed, "tail": h.lines[-30:]})
+                {"mode": "conc", "procs": procs, "seed": ctx.seed, "tail": h.lines[-30:],
+                 "args": ["run", n, ctx.seed * 17 + i, procs, NKEYS, NVALS]})
             continue
         if h.rc != 0:
             raise Broken("c04_conc failed rc=%s: %s" % (h.rc, h.err[-2000:]))
@@ -409,6 +411,21 @@ def replay(ctx, path):
             ctx.violation("replayed log rejected at event %d" % rj["at"], rep)
         ctx.sample({"kind": "replayed log (first events)", "events": [{k: v for k, v in e.items() if k != "got"}
                                                                       for e in rep["events"][:6] if isinstance(e, dict)]})
+        return
+    if rep.get("mode") in ("conc", "record") and rep.get("args"):
+        # a crash / hang of the real code: run the same seeded harness batch again, validate what it logs
+        conc = rep["mode"] == "conc"
+        exe = build.harness("c04_conc", ["c04_conc.cc"], "shim") if conc else build.harness("c04_span", ["c04_span.cc"], "asan")
+        h = hrun.run_harness(exe, rep["args"], timeout=1200, asan=not conc)
+        ctx.traces += 1
+        ctx.sample({"kind": "re-run of the harness batch that crashed", "args": rep["args"]})
+        if h.crashed or h.timed_out or h.rc in (3, 4):
+            ctx.violation("re-run: real code crashed / got stuck again (rc=%s): %s" % (h.rc, (h.err or "")[-600:]), rep)
+            return
+        lines = [ln for ln in h.lines if ln.startswith("{")]
+        res = spantv.validate(ctx, "SpanLifecycleTrace", _tv_cfg(ctx, rep["procs"], ctx.known_devs() & ALL_DEVS), lines,
+                              chunk=60, parallel=4, tag="replay", env=JENV)
+        _report_rejections(ctx, res, rep["procs"], "re-run")
         return
     b = rep.get("behaviour")
     if not b:
